@@ -151,7 +151,7 @@ func checkC01(c *Ctx) {
 	c.Rule("C01.2", "running-status protocol: writer elides only an equal channel status, stores/clears as required, resets on the sysex path and after every track flush; reader clears on exactly FF/F0/F7 and sets on exactly 80-EF", 3)
 	c.Rule("C01.3", "no single-result type assertion reachable from ReadFrom/WriteTo whose operand can hold a second dynamic type", 1)
 	c.Rule("C01.4", "reader(writer(header)) = header for every format 0..2, track count, metric resolution 1..32767 and the four time-code rates with any subframes", 15)
-	c.Rule("C01.5", "auto-close before serialisation: in the whole-file simulation of WriteTo (3 tracks: closed, open, closed) the open track is written with a final end-of-track and the closed ones are written as they are", 1)
+	c.Rule("C01.5", "auto-close before serialisation: in the whole-file simulation of WriteTo (4 tracks: closed, open, closed, closed) the open track is written with a final end-of-track and the closed ones are written as they are", 1)
 	c.Rule("C01.6", "VLQ composition: decode(encode(n)) = n in every magnitude cell (delta times and lengths)", 5)
 	c.Rule("C01.7", "delta / option plumbing: in the whole-file simulation of WriteTo every event goes out as VLQ(its own delta) followed by its bytes, once; NoRunningStatus selects the running-status stage; the decoded delta reaches Track.Add/Close; a multi-message Add gives the delta to the first message only; Add stores any event bytes unchanged", 5)
 
